@@ -154,3 +154,74 @@ func h16a(K int) {
 
 func H16a_q() { h16a(4) }
 func H16a_t() { h16a(6) }
+
+// H16b: each traced operation completes its trace exactly once and records no event after completion,
+// for every order of builder events.
+func h16b(K int) {
+	col := &vCollector{}
+	b := &builder{collector: col, trace: Trace{TestName: "t"}}
+	finished := false
+	recorded := 0 // events that should be in the completed trace
+	reqIdx, respIdx := 0, 0
+	okIdx := true
+	for i := 0; i < K; i++ {
+		op := vIntAt("ev", i, 6, 0, 6)
+		var ev Event
+		fin := false
+		switch op {
+		case 0:
+			e := &RequestBodyData{Len: 1}
+			ev = e
+		case 1:
+			if vBoolAt("evErr", i, 6) {
+				ev, fin = &RequestBodyEnd{Err: errVerifBody}, true
+			} else {
+				ev = &RequestBodyEnd{}
+			}
+		case 2:
+			ev = &ResponseBodyData{Len: 1}
+		case 3:
+			ev, fin = &ResponseBodyEnd{}, true
+		case 4:
+			ev, fin = &RequestCanceled{}, true
+		case 5:
+			ev, fin = &ResponseError{Err: errVerifBody}, true
+		default:
+			b.build()
+			if !finished {
+				finished = true
+			}
+			continue
+		}
+		b.add(ev)
+		if !finished {
+			recorded++
+			switch e := ev.(type) {
+			case *RequestBodyData:
+				if e.MessageIndex != reqIdx {
+					okIdx = false
+				}
+				reqIdx++
+			case *ResponseBodyData:
+				if e.MessageIndex != respIdx {
+					okIdx = false
+				}
+				respIdx++
+			}
+			if fin {
+				finished = true
+			}
+		}
+		vAssert(col.n <= 1, "the collector is never called twice for one operation")
+	}
+	if finished {
+		vAssert(col.n == 1, "a finishing event or build() completes the trace exactly once")
+		vAssert(len(col.last.Events) == recorded, "no event is recorded after completion")
+	} else {
+		vAssert(col.n == 0, "without a finishing event the trace is not completed")
+	}
+	vAssert(okIdx, "message indices are consecutive per direction")
+}
+
+func H16b_q() { h16b(4) }
+func H16b_t() { h16b(6) }
